@@ -1,3 +1,4 @@
+#![allow(unexpected_cfgs)] // `excsn_fibre_verif` gates the verification seam (verif_hook.rs)
 mod mutex;
 mod rwlock;
 mod wait_queue;
@@ -6,6 +7,10 @@ mod wait_queue;
 mod miri_tests;
 #[cfg(test)]
 mod test_util;
+
+/// Verification seam H3 (see `verif_hook.rs`).
+#[cfg(all(excsn_fibre_verif, not(loom)))]
+pub mod verif_hook;
 
 pub use mutex::{HybridMutex, MutexGuard};
 pub use rwlock::{HybridRwLock, ReadGuard, WriteGuard};
